@@ -92,10 +92,11 @@ def tree_hash():
                 continue
             h.update(f.encode() + b"\0" + hashlib.sha256(data).digest())
         # the derive corpus is part of the cache key
-        try:
-            h.update(hashlib.sha256(open(os.path.join(VERIF, "engines", "fixtures", "src", "lib.rs"), "rb").read()).digest())
-        except OSError:
-            pass
+        for fx in sorted(glob.glob(os.path.join(VERIF, "engines", "fixtures", "src", "*.rs"))):
+            try:
+                h.update(os.path.basename(fx).encode() + hashlib.sha256(open(fx, "rb").read()).digest())
+            except OSError:
+                pass
         # the engines themselves are part of the cache key
         for eng in (MIRFACTS_BIN, SRCFACTS_BIN):
             try:
@@ -326,7 +327,8 @@ def ensure_fixture_facts(scale_info_features=("derive",)):
         os.makedirs(out, exist_ok=True)
         d = os.path.join(WORK, "fixtures", tree_hash()[:12] + "-" + tag)
         os.makedirs(os.path.join(d, "src"), exist_ok=True)
-        shutil.copy(FIXTURES_SRC, os.path.join(d, "src", "lib.rs"))
+        for fx in glob.glob(os.path.join(os.path.dirname(FIXTURES_SRC), "*.rs")):
+            shutil.copy(fx, os.path.join(d, "src", os.path.basename(fx)))
         shutil.copy(os.path.join(REPO, "Cargo.lock"), os.path.join(d, "Cargo.lock"))
         with open(os.path.join(d, "Cargo.toml"), "w") as f:
             f.write("""[package]
